@@ -441,3 +441,12 @@ fn c03_set_draw_target_forgets_zombie_lines_of_the_old_target() {
     mp.println("L2").unwrap();
     assert_eq!(t.contents(), "L0\nL1\nL2");
 }
+
+/// C09: the position a bar starts out at (with_position) is not progress.
+#[test]
+fn c09_with_position_is_not_progress() {
+    let pb = ProgressBar::with_draw_target(Some(1_000_000_000), ProgressDrawTarget::hidden()).with_position(500_000_000);
+    std::thread::sleep(std::time::Duration::from_millis(100));
+    pb.inc(100);
+    assert!(pb.per_sec() < 10_000.0, "100 steps in 0.1 s reported as {} steps/s", pb.per_sec());
+}
